@@ -88,36 +88,53 @@ def r2(ctx):
         raise AnalysisError(f"find_duplicates: bucketing idiom not recognised (link paths {n_link}, file paths {n_file})")
     if cmpc:
         ctx.check(deep, "report:find_duplicates:confirmation", "byte-wise confirmation missing (filecmp.cmp must be called with shallow=False)", f.loc(cmpc[0]))
-    # singleton buckets skipped, groups of >= 2 kept
-    conf = [n for n in f.node.body if isinstance(n, ast.For) and ".items()" in u(n.iter)]
-    ctx.require(len(conf) == 1, "find_duplicates: confirmation loop over the buckets not found")
-    cl = conf[0]
-    skip = [s for s in cl.body if isinstance(s, ast.If) and isinstance(s.body[0], ast.Continue)]
-    ok = len(skip) == 1 and u(skip[0].test) in ("len(path_set) == 1", "len(path_set) < 2", "len(path_set) <= 1")
-    ctx.soft(ok, "report:find_duplicates:singletons-skipped", f"only buckets with a single file may be skipped: {[u(s.test) for s in skip]}", f.loc(cl))
-    emit = [s for s in ast.walk(cl) if isinstance(s, ast.If) and any(isinstance(x, ast.Call) and u(x.func).endswith(".append") for x in ast.walk(s))]
-    ok = len(emit) == 1 and u(emit[0].test) in ("len(matches) > 1", "len(matches) >= 2")
-    ctx.check(ok, "report:find_duplicates:groups-of-two-or-more", f"a group must be reported iff it has at least two members: {[u(s.test) for s in emit]}", f.loc(cl))
-    # partition loop: every remaining file is compared with the pivot; matched files are removed afterwards
-    wl = [n for n in ast.walk(cl) if isinstance(n, ast.While)]
-    ok = len(wl) == 1 and u(wl[0].test) in ("len(remaining) > 1", "len(remaining) >= 2")
-    ctx.soft(ok, "report:find_duplicates:partition-loop", "the partition loop must run while at least two candidates remain", f.loc(cl))
-    if ok:
-        inner = [n for n in wl[0].body if isinstance(n, ast.For)]
-        ok2 = len(inner) == 1 and u(inner[0].iter) == "remaining"
-        ctx.soft(ok2, "report:find_duplicates:compare-with-every-remaining", "the pivot must be compared with every remaining file", f.loc(wl[0]))
-        rem = [s for s in wl[0].body if isinstance(s, ast.Expr) and u(s.value) == "remaining.difference_update(matches)"]
-        ctx.soft(len(rem) == 1, "report:find_duplicates:matched-removed-after-scan", "matched files must be removed from the candidates after the scan (`remaining.difference_update(matches)`)", f.loc(wl[0]))
-    # duplicates(): every member printed
+    # phase 2 on the same table: a set of files is reported iff it has at least two members; a bucket holding one file
+    # reports nothing
+    def _big(x, at):
+        for k, want in ((f"len({x}) Gt 1", True), (f"1 Lt len({x})", True), (f"len({x}) Lt 2", False), (f"2 Gt len({x})", False), (f"1 Eq len({x})", False)):
+            if k in at and k != f"1 Eq len({x})":
+                return at[k] is want
+        return None
+
+    n_rep = n_small = 0
+    for p in tab(f, unroll=1):
+        from ..decision import vtext as _vtx
+
+        at = dict(p.atoms)  # version marks kept: the pivot's set of the first and of the second round are different sets
+        reported = [_vtx(e[2]) for e in p.effects if e[0] == "call" and re.fullmatch(r"\w+\.append", str(e[1])) and len(e) > 2 and (_vtx(e[2]).startswith("set:") or "matches" in _vtx(e[2]))]
+        for x in reported:
+            big = _big(x, at)
+            n_rep += 1
+            ctx.check(big is True, "report:find_duplicates:groups-of-two-or-more", f"a group is reported on a path that does not establish that it has at least two members (`len({x[:60]}) > 1`): a file with unique content would be listed as its own duplicate", f.loc())
+        for k, v in at.items():
+            m = re.fullmatch(r"len\((set:.+)\) Gt 1", k)
+            if m and v is False:
+                n_small += 1
+                ctx.check(m.group(1) not in reported, "report:find_duplicates:groups-of-two-or-more", "a set with a single member is reported as a group of duplicates", f.loc())
+        single = [k for k, v in at.items() if re.fullmatch(r"1 Eq len\(.+\)", k) and v]
+        if single:
+            ctx.check(not reported, "report:find_duplicates:singletons-skipped", "a bucket holding a single file must not report anything", f.loc())
+    if not n_rep:
+        raise AnalysisError("find_duplicates: no path reports a group: idiom not recognised")
+    # duplicates(): prints what find_duplicates(<the code base it was given>) found: every member of every group once
     d = repo.func("report", "duplicates")
-    lp2 = [n for n in walk_no_nested(d.node) if isinstance(n, ast.For) and "enumerate(confirmed_matches)" in u(n.iter)]
-    ok = len(lp2) == 1
-    if ok:
-        inner = [n for n in lp2[0].body if isinstance(n, ast.For)]
-        ok = len(inner) == 1 and u(inner[0].iter) in ("sorted(matches)", "matches") and any(isinstance(x, ast.Call) and callee(x) == "print" and u(inner[0].target) in u(x) for x in ast.walk(inner[0]))
-    ctx.soft(ok, "report:duplicates:every-member-printed", "every member of every group must be printed", d.loc())
-    src = [s for s in d.node.body if isinstance(s, ast.Assign) and u(s.value) == f"find_duplicates({d.params[0]})"]
-    ctx.soft(len(src) == 1, "report:duplicates:uses-find_duplicates", "the report must print what find_duplicates() found for the given code base", d.loc())
+    FD = f"find_duplicates({d.params[0]})"
+    n_mem = 0
+    for p in tab(d, unroll=1):
+        at = {vt(k): v for k, v in p.atoms.items()}
+        prints = [" ".join(vt(x) for x in e[2:] if not isinstance(x, tuple)) for e in p.effects if e[0] == "call" and e[1] == "print"]
+        groups = [m.group(1) for k, v in at.items() for m in [re.match(r"more\((.+)#L\d+,0\)$", k)] if m and v and FD in k]
+        if not any(FD in k for k in p.atoms):
+            ctx.violation("report:duplicates:uses-find_duplicates", f"the report must print what find_duplicates() found for the code base it was given (`{FD}`): {list(p.atoms)[:2]}", d.loc())
+            continue
+        members = [g for g in groups if re.search(r"\[0\]\[1\]|\[0\]\)?$", g) and g != groups[0]] if groups else []
+        if len(groups) >= 2:
+            member = f"{groups[1]}[0]"
+            n_mem += 1
+            hits = [t for t in prints if "{" + member + "}" in t or member in t]
+            ctx.check(len(hits) == 1, "report:duplicates:every-member-printed", f"every member of every group must be printed once: member `{member[-60:]}` appears in {len(hits)} printed lines", d.loc())
+    if not n_mem:
+        raise AnalysisError("report.duplicates: no path visits a member of a group: idiom not recognised")
     ctx.floor(9)
 
 
